@@ -9,6 +9,7 @@ import (
 	"strconv"
 	"strings"
 	"unicode"
+	"unicode/utf16"
 	"unicode/utf8"
 
 	"github.com/robertkrimen/otto/ast"
@@ -783,6 +784,20 @@ func parseStringLiteral(literal string) (string, error) {
 				}
 				if value > utf8.MaxRune {
 					panic("value > utf8.MaxRune")
+				}
+				if utf16.IsSurrogate(value) && len(str) >= 6 && str[0] == '\\' && str[1] == 'u' {
+					// A high and a low surrogate escape make one character (ES5 6, 7.8.4).
+					var low rune
+					ok := true
+					for j := 2; j < 6 && ok; j++ {
+						var decimal rune
+						decimal, ok = hex2decimal(str[j])
+						low = low<<4 | decimal
+					}
+					if combined := utf16.DecodeRune(value, low); ok && combined != utf8.RuneError {
+						value = combined
+						str = str[6:]
+					}
 				}
 			case '0':
 				if len(str) == 0 || '0' > str[0] || str[0] > '7' {
